@@ -29,6 +29,10 @@ fn bytes_of<T: Serialize>(t: &T) -> Vec<u8> {
     v.truncate(n);
     v
 }
+/// the bytes of a slice of words, with the lifetime of the slice
+fn as_bytes<'a>(w: &'a [u64]) -> &'a [u8] {
+    unsafe { core::slice::from_raw_parts(w.as_ptr() as *const u8, w.len() * 8) }
+}
 fn file_of<T: Serialize>(t: &T, name: &str) -> std::path::PathBuf {
     let p = std::env::temp_dir().join(format!("c09-probe-{}-{}", std::process::id(), name));
     t.store(&p).unwrap();
@@ -132,6 +136,43 @@ fn probes() -> Vec<(Probe, String, bool, bool)> {
             format!("c09_case_twin_{}", i),
             "memcase-deref-copy",
             format!("    let p = file_of(&{val}, \"tw{i}\");\n    let case = <{ty}>::load_mem(&p).unwrap();\n    let x: &{d} = &case;\n    let s: {b} = {path};\n    println!(\"{{:?}}\", {read});\n    drop(case);\n    std::fs::remove_file(p).ok();", val = c.val, ty = c.ty, d = c.deser_static, b = c.borrow, path = c.path, read = c.read, i = i),
+            false,
+            true,
+        );
+    }
+    // the public helper functions that reinterpret buffer memory: the borrow they return is tied to the buffer
+    for (i, (elem, call, read)) in [
+        ("u64", "epserde::deser::helpers::deserialize_eps_slice_zero::<u64>(&mut b).unwrap()", "s[0]"),
+        ("Z", "epserde::deser::helpers::deserialize_eps_slice_zero::<Z>(&mut b).unwrap()", "s[0].a"),
+        ("u64", "core::slice::from_ref(epserde::deser::helpers::deserialize_eps_zero::<u64>(&mut b).unwrap())", "s[0]"),
+    ]
+    .iter()
+    .enumerate()
+    {
+        let setup = "        let mut buf = vec![0u64; 8];
+        buf[0] = 3;
+        buf[1] = 0xAA;
+        let bytes: &[u8] = as_bytes(&buf);
+        let mut b = epserde::deser::SliceWithPos::new(bytes);
+";
+        add(
+            format!("c09_helper_return_{}", i),
+            "helper-returned-from-owner",
+            format!("    fn f() -> &'static [{e}] {{
+{setup}        {call}
+    }}
+    let s = f();
+    println!(\"{{:?}}\", {read});", e = elem, setup = setup, call = call, read = read),
+            true,
+            false,
+        );
+        add(
+            format!("c09_helper_twin_{}", i),
+            "helper-returned-from-owner",
+            format!("    {{
+{setup}        let s: &[{e}] = {call};
+        println!(\"{{:?}}\", {read});
+    }}", e = elem, setup = setup, call = call, read = read),
             false,
             true,
         );
